@@ -203,6 +203,51 @@ fn wscript(u: &mut Unstructured) -> Option<WScript> {
     })
 }
 
+/// C16 compares with a reference formatting made at another moment: the entry must carry its own
+/// timestamp (the proptest generator of C16 guarantees the same)
+fn with_timestamp(mut e: GenEntry) -> GenEntry {
+    if !e.ops.iter().any(|o| matches!(o, Op::Timestamp { .. })) {
+        e.ops.insert(0, Op::Timestamp { secs: 1_700_000_000, nanos: 0, before_epoch: false });
+    }
+    e
+}
+
+pub fn decode_fmt_case(u: &mut Unstructured) -> Option<crate::props::c16::FmtCase> {
+    Some(crate::props::c16::FmtCase {
+        cfg: cfg(u)?,
+        entry: with_timestamp(entry(u)?),
+        script: wscript_flushes(u)?,
+    })
+}
+
+pub fn decode_sink_fmt_case(u: &mut Unstructured) -> Option<crate::props::c16::SinkFmtCase> {
+    let c = cfg(u)?;
+    let n = u.int_in_range(1..=4usize).ok()?;
+    let mut entries = vec![];
+    for _ in 0..n {
+        entries.push(with_timestamp(entry(u)?));
+    }
+    Some(crate::props::c16::SinkFmtCase {
+        cfg: c,
+        entries,
+        script: wscript_flushes(u)?,
+        kind: match u.int_in_range(0..=2u8).ok()? {
+            0 => crate::props::c16::SinkKind::Typed,
+            1 => crate::props::c16::SinkKind::Any,
+            _ => crate::props::c16::SinkKind::Boxed,
+        },
+    })
+}
+
+fn wscript_flushes(u: &mut Unstructured) -> Option<WScript> {
+    let mut w = wscript(u)?;
+    let n = u.int_in_range(0..=3usize).ok()?;
+    for _ in 0..n {
+        w.flushes.push(u.arbitrary().ok()?);
+    }
+    Some(w)
+}
+
 pub fn decode_seq_case(u: &mut Unstructured) -> Option<c02::SeqCase> {
     let c = cfg(u)?;
     let n = u.int_in_range(2..=6usize).ok()?;
